@@ -17,19 +17,19 @@ def run(ctx):
     if quick:
         plan = ("all:2,2,2:MC,MCFilterExact:%s;rand:6,6,6:6:MC,MCFilterTrue,MCFilterExact,MCFilterExactPlus:%s;"
                 "rand:4,4,9:6:MC,MCSearch3:%s;blocky:8:3:MCC2F,MC:1,16;sat:14:8:MCC2Fx0,MCC2Fx3,MCC2Fx6:0;"
-                "rand:6,6,6:6:MCFilterGeom:1,16;all:2,2,2:MCFilterGeom:0" % ("1,3", procs, procs))
+                "rand:6,6,6:6:MCFilterGeom,MCFilterGeomHi:1,16;all:2,2,2:MCFilterGeom:0;aligned:12:MCFilterGeom,MCFilterGeomHi:0" % ("1,3", procs, procs))
         plan2 = ("ms:all:3,3:MS,MSFilterExact:1,3;ms:rand:12,12:10:MS,MSFilterTrue,MSFilterExact,MSFilterExactPlus:%s;"
-                 "ms:blocky:12:5:MSC2F,MS:1,16;ms:sat:14:10:MSC2Fx0,MSC2Fx3,MSC2Fx6:0;ms:rand:9,8:20:MSFilterGeom:1,16;"
+                 "ms:blocky:12:5:MSC2F,MS:1,16;ms:sat:14:10:MSC2Fx0,MSC2Fx3,MSC2Fx6:0;ms:rand:9,8:20:MSFilterGeom,MSFilterGeomHi:1,16;ms:aligned:14:MSFilterGeom,MSFilterGeomHi:0;"
                  "ms:all:3,3:MSFilterGeom:0" % procs)
         pland = "rand:4,2,8:12:1/4/0/0,2/5/0/0,8/6/1/0,3/10/0/0,1/0/1/0,16/7/0/1"
     else:
         plan = ("all:2,2,2:MC,MCFilterExact,MCFilterExactPlus:%s;all:3,2,2:MC,MCFilterExact:1,16;"
                 "rand:6,6,6:60:MC,MCFilterTrue,MCFilterExact,MCFilterExactPlus:%s;"
                 "rand:4,4,12:40:MC,MCSearch3,MCFilterExactPlus:%s;blocky:8:25:MCC2F,MC:1,16;rand:9,9,9:6:MC,MCFilterExactPlus:%s;"
-                "sat:14:60:MCC2Fx0,MCC2Fx3,MCC2Fx6:0;rand:6,6,6:60:MCFilterGeom:1,16;all:2,2,2:MCFilterGeom:0;all:3,2,2:MCFilterGeom:0"
+                "sat:14:60:MCC2Fx0,MCC2Fx3,MCC2Fx6:0;rand:6,6,6:60:MCFilterGeom,MCFilterGeomHi:1,16;aligned:12:MCFilterGeom,MCFilterGeomHi:1,16;aligned:14:MCFilterGeom,MCFilterGeomHi:0;aligned:9:MCFilterGeom,MCFilterGeomHi:0;all:2,2,2:MCFilterGeom:0;all:3,2,2:MCFilterGeom:0"
                 % (procs, procs, procs, "1,16"))
         plan2 = ("ms:all:3,3:MS,MSFilterExact,MSFilterExactPlus:%s;ms:rand:14,13:80:MS,MSFilterTrue,MSFilterExact,MSFilterExactPlus:%s;"
-                 "ms:blocky:14:40:MSC2F,MS:1,16;ms:sat:14:100:MSC2Fx0,MSC2Fx3,MSC2Fx6:0;ms:rand:12,11:100:MSFilterGeom:1,16;"
+                 "ms:blocky:14:40:MSC2F,MS:1,16;ms:sat:14:100:MSC2Fx0,MSC2Fx3,MSC2Fx6:0;ms:rand:12,11:100:MSFilterGeom,MSFilterGeomHi:1,16;ms:aligned:14:MSFilterGeom,MSFilterGeomHi:1,16;ms:aligned:13:MSFilterGeom,MSFilterGeomHi:0;ms:aligned:12:MSFilterGeom,MSFilterGeomHi:0;ms:aligned:11:MSFilterGeom,MSFilterGeomHi:0;"
                  "ms:all:4,3:MSFilterGeom:0" % (procs, procs))
         pland = ("rand:5,2,8:80:1/4/0/0,2/5/0/0,8/6/1/0,3/10/0/0,1/0/1/0,16/7/0/1;"
                  "rand:4,3,12:40:1/4/0/0,2/5/1/0,3/6/0/0,4/7/0/0,5/8/0/0,6/9/1/0,7/10/0/0,8/11/0/0,1/12/0/0,2/13/0/0,3/14/0/0")
